@@ -86,3 +86,9 @@ proof('C01', 'Machine-checked for EVERY code triple (no enumeration of triples):
       'inverse matrices are entry-wise within 2.5e-7 of the exact rational H.273 matrices and EVERY code of every depth/range normalises within 2e-7 of the H.273 formula; (K) soundness of the exact-rational checker, the standard-model rounding '
       'lemmas for binary32 (round_val, mul/add/fma) and the 3-term dot-product error analysis over the reals; decodeSpec_is_h273 shows the exact matrix is R=Y+2(1-Kr)Cr, B=Y+2(1-Kb)Cb, G=(Y-Kr R-Kb B)/Kg. The N parts trust the Lean compiler in addition to the kernel.',
       'Lean 4: rounding-error analysis over the reals (kernel) + exhaustive evaluated checks of constants and per-code normalisation (native_decide); correspondence ties the model to the code')
+
+proof('C02', 'Machine-checked for EVERY finite RGB pixel with components of magnitude <= 3/2 (in particular [-1/2,3/2]^3), every standard matrix, range, depth 8..16, storage and FMA mode (C02.encode_close): each of the three codes is within '
+      '1/2 + 1e-6*2^n of the H.273 quantisation S*(exact row . rgb) + O clamped to [0,2^n-1], including the full-range chroma shortcut at -0.5 (chroma_shortcut); encodeSpec_is_h273 shows the exact rows are Y=KrR+KgG+KbB, Cb=(B-Y)/(2(1-Kb)), Cr=(R-Y)/(2(1-Kr)); '
+      'encode_shape: the output carries the requested (resolved) config and the input dimensions. Ingredients: (N, native_decide on regenerated constants) forward matrices within 6e-8 of the exact rationals, exact rows of absolute sum <= 1, scale/offset exactly the H.273 integers; '
+      '(K) dot-product and FMA rounding analysis over the reals, semantics of round() half-away + saturating as-u16 (round_spec), 1-Lipschitz clamp (quant_err).',
+      'Lean 4: rounding-error analysis over the reals (kernel) + evaluated checks of constants (native_decide); correspondence ties the model to the code')
